@@ -5,6 +5,7 @@ CONSTANTS
   Bundles <- TlsBundles
   Ctxs <- WideTight
   Reqs <- FullReq
+  Calls <- OneCall
   Tries <- One
   Hists <- AllHists
   BackoffCfgs <- NoBoCfgs
